@@ -31,17 +31,45 @@ TableOf(e) ==
      LET q == e.pg[j]
          audio == q.l >= 0 /\ q.o >= lk[q.l + 1].doff
          b1 == IF q.l >= 0 THEN lk[q.l + 1].bs1 ELSE 0
-     IN [off |-> q.o, len |-> q.n, ser |-> q.s, gp |-> q.g, bos |-> q.b = 1, eos |-> q.e = 1, cont |-> q.c = 1,
+     IN [off |-> q.o, len |-> q.n, ser |-> q.s, gp |-> q.g, bos |-> q.b = 1, eos |-> q.e = 1, cont |-> q.c = 1, pn |-> q.q, tail |-> q.t = 1,
          hp |-> IF q.l >= 0 /\ q.o < lk[q.l + 1].doff THEN q.k ELSE 0,
          bs |-> IF audio THEN q.bl ELSE <<>>,
          ws |-> IF audio THEN [x \in 1..Len(q.bl) |-> IF q.bl[x] = b1 THEN 1 ELSE 0] ELSE <<>>,
          k0 |-> 0, ours |-> FALSE]]
-FileOf(e) == [PG |-> TableOf(e), BL |-> [i \in 1..Len(e.lk) |-> <<e.lk[i].bs0, e.lk[i].bs1>>], CH |-> [i \in 1..Len(e.lk) |-> e.lk[i].ch],
+\* damage the model can follow (as in VFOpen_Trace): an audio page or a page of a foreign stream that lies about itself, is missing or there twice
+\* (not: granule positions too large for TLC's 32-bit integers - the code computes with them in 64 bits, wrap-around included)
+FieldKinds == {"setgp", "setserial", "setbos", "seteos", "cleareos", "setseq", "setcont", "clearcont"}
+CanFollow(ps, m) == m.a + 1 \in 1..Len(ps) /\ ps[m.a + 1].hp = 0 /\ ~ps[m.a + 1].bos /\ m.kind \in FieldKinds \cup {"drop", "dup"} /\ (m.kind = "clearcont" => ~ps[m.a + 1].cont) /\ (m.kind = "setgp" => m.b > -1900000000 /\ m.b < 1900000000)
+ApplyOne(ps, m) ==
+  LET k == m.a + 1  p == ps[k]
+      q == CASE m.kind = "setgp" -> [p EXCEPT !.gp = m.b]
+             [] m.kind = "gphuge" -> [p EXCEPT !.gp = 2000000000]
+             [] m.kind = "setserial" -> [p EXCEPT !.ser = m.b]
+             [] m.kind = "setbos" -> [p EXCEPT !.bos = TRUE]
+             [] m.kind = "seteos" -> [p EXCEPT !.eos = TRUE]
+             [] m.kind = "cleareos" -> [p EXCEPT !.eos = FALSE]
+             [] m.kind = "setseq" -> [p EXCEPT !.pn = m.b]
+             [] m.kind = "setcont" -> [p EXCEPT !.cont = TRUE]
+             [] m.kind = "clearcont" -> [p EXCEPT !.cont = FALSE]
+             [] OTHER -> p
+  IN IF m.kind = "drop" THEN SubSeq(ps, 1, k - 1) \o SubSeq(ps, k + 1, Len(ps))
+     ELSE IF m.kind = "dup" THEN SubSeq(ps, 1, k) \o SubSeq(ps, k, Len(ps))
+     ELSE [ps EXCEPT ![k] = q]
+RECURSIVE ApplyAll(_, _, _)
+ApplyAll(ps, d, i) == IF i > Len(d) THEN [ok |-> TRUE, ps |-> ps] ELSE IF ~CanFollow(ps, d[i]) THEN [ok |-> FALSE, ps |-> ps] ELSE ApplyAll(ApplyOne(ps, d[i]), d, i + 1)
+RECURSIVE Reoffset(_, _, _)
+Reoffset(ps, k, o) == IF k > Len(ps) THEN <<>> ELSE << [ps[k] EXCEPT !.off = o] >> \o Reoffset(ps, k + 1, o + ps[k].len)
+DamagedTable(e) ==
+  IF "ndmg" \notin DOMAIN e \/ e.ndmg = 0 THEN [ok |-> TRUE, ps |-> TableOf(e), dmg |-> FALSE]
+  ELSE IF e.ndmg > Len(e.dmg) THEN [ok |-> FALSE, ps |-> <<>>, dmg |-> TRUE]
+  ELSE LET a == ApplyAll(TableOf(e), e.dmg, 1) IN [ok |-> a.ok, ps |-> IF a.ok THEN Reoffset(a.ps, 1, 0) ELSE <<>>, dmg |-> TRUE]
+FileOf(e) == LET T == DamagedTable(e) IN [PG |-> T.ps, damaged |-> T.dmg, BL |-> [i \in 1..Len(e.lk) |-> <<e.lk[i].bs0, e.lk[i].bs1>>], CH |-> [i \in 1..Len(e.lk) |-> e.lk[i].ch],
               lt |-> [i \in 1..Len(e.lk) |-> [off |-> e.lk[i].beg, ser |-> e.lk[i].ser, doff |-> e.lk[i].doff, first |-> 0, len |-> e.lk[i].N]],          \* for streaming handles: which serial number has which block sizes
-              ok |-> ("ndmg" \notin DOMAIN e \/ e.ndmg = 0) /\ Len(e.pg) < 4000]
+              ok |-> T.ok /\ Len(e.pg) < 4000]
 Known(h) == h \in DOMAIN H /\ H[h].known
 \* (when the reader ran into the end of the file the raw offset stops up to 26 bytes short of it, depending on the bytes: not compared)
-Same(m, e, F) == m.ret = e.ret /\ m.vf.off = e.tell /\ m.vf.rs = e.rs /\ (m.vf.rs >= STREAMSET => m.vf.link - 1 = e.cur) /\ (m.vf.pos = e.off \/ m.vf.pos = DataEnd(F.PG)) /\ m.vf.hs = e.hs
+Cl(x) == IF x > 1900000000 THEN 1900000000 ELSE x          \* (huge lying granule positions are logged clamped)
+Same(m, e, F) == m.ret = e.ret /\ Cl(m.vf.off) = Cl(e.tell) /\ m.vf.rs = e.rs /\ (m.vf.rs >= STREAMSET => m.vf.link - 1 = e.cur) /\ (m.vf.pos = e.off \/ m.vf.pos = DataEnd(F.PG)) /\ m.vf.hs = e.hs
                  /\ (m.vf.rs = INITSET /\ "dr" \in DOMAIN e => m.vf.d.ret = e.dr /\ m.vf.d.cur = e.dc /\ m.vf.d.centerW = e.dw)          \* the decoder's own bookkeeping
 Judge(m, e, F) == IF Same(m, e, F) THEN {} ELSE {"StateAsModelled"}
 Unknown == [known |-> FALSE]
@@ -87,8 +115,10 @@ Step(e) ==
                   [] e.e = "RawSeekLap" -> LapSeek(F.PG, s.LT, F.BL, s.vf, "raw", e.pos, K)
                   [] e.e \in {"TimeSeek", "TimeSeekPage", "TimeSeekLap", "TimeSeekPageLap"} -> Timed(F, s, e)
                   [] OTHER -> PcmSeekPage(F.PG, s.LT, F.BL, s.vf, e.pos, K)
-       IN /\ Note(Judge(m, e, F), e, m)
-          /\ H' = [H EXCEPT ![e.h] = [@ EXCEPT !.known = Same(m, e, F), !.vf = m.vf]] /\ ncmp' = ncmp + 1
+           \* where the raw offset stands after a seek that FAILED half way (the page-wise search backwards, the rewind) is not modelled: it is taken from the log
+           m1 == IF e.e \in Seeks /\ m.ret < 0 /\ e.ret = m.ret THEN [m EXCEPT !.vf.pos = e.off] ELSE m
+       IN /\ Note(Judge(m1, e, F), e, m1)
+          /\ H' = [H EXCEPT ![e.h] = [@ EXCEPT !.known = Same(m1, e, F), !.vf = m1.vf]] /\ ncmp' = ncmp + 1
   ELSE IF e.e = "Crosslap" /\ e.h1 # e.h2 /\ Known(e.h1) /\ Known(e.h2) /\ H[e.h1].vf.sk /\ H[e.h2].vf.sk
   THEN LET s1 == H[e.h1]  s2 == H[e.h2]  F1 == files[s1.f]  F2 == files[s2.f]
            x == Crosslap(F1.PG, s1.LT, F1.BL, s1.vf, F2.PG, s2.LT, F2.BL, s2.vf)
